@@ -32,7 +32,7 @@ func cat(bs ...[]byte) []byte {
 	return out
 }
 
-func s5v4(ip [4]byte, port uint16) []byte { return cat([]byte{1}, ip[:], be16(port)) }
+func s5v4(ip [4]byte, port uint16) []byte  { return cat([]byte{1}, ip[:], be16(port)) }
 func s5v6(ip [16]byte, port uint16) []byte { return cat([]byte{4}, ip[:], be16(port)) }
 func s5dom(name string, port uint16) []byte {
 	return cat([]byte{3, byte(len(name))}, []byte(name), be16(port))
@@ -142,8 +142,8 @@ func dnsSeeds() [][]byte {
 		cat(dnsHeader(4, 0x8100, 1, 0, 0, 0), q4),                                                    // no recursion available
 		cat(dnsHeader(5, resp, 1, 0, 0, 0), q4),                                                      // unexpected transaction ID
 		cat(dnsHeader(4, resp|6, 1, 0, 0, 0), q4),                                                    // unknown rcode
-		cat(dnsHeader(4, resp, 0, 1, 0, 0), dnsRR(dnsName("x"), 1, 0xffffffff, []byte{1, 2, 3, 4})),   // no question, maximal TTL
-		cat(dnsHeader(6, resp, 1, 1, 0, 0), q6, dnsRR(ptr12, 28, 60, []byte{1, 2, 3, 4})),             // AAAA with 4-byte rdata
+		cat(dnsHeader(4, resp, 0, 1, 0, 0), dnsRR(dnsName("x"), 1, 0xffffffff, []byte{1, 2, 3, 4})),  // no question, maximal TTL
+		cat(dnsHeader(6, resp, 1, 1, 0, 0), q6, dnsRR(ptr12, 28, 60, []byte{1, 2, 3, 4})),            // AAAA with 4-byte rdata
 		cat(dnsHeader(4, resp, 1, 1, 0, 0), q4, dnsRR(ptr12, 1, 60, ip6doc[:])),                      // A with 16-byte rdata
 		cat(dnsHeader(4, resp, 0xffff, 0xffff, 0xffff, 0xffff)),                                      // counts without records
 	}
